@@ -59,10 +59,10 @@ pub fn alphabet(thorough: bool) -> Vec<Op> {
         Op::Alloc(Ty::I32, 40),  // same size/align as f32, bigger
         Op::AddFresh(Ty::F32, 48),
         Op::AllocReturn(Ty::F32, 33),
+        Op::Alloc(Ty::U64, 16), // same bytes as a pooled f32 buffer, different alignment
     ];
     if thorough {
         v.extend([
-            Op::Alloc(Ty::U64, 16), // same bytes, different alignment
             Op::Alloc(Ty::F32, 31), // below the threshold: bypasses the pool
             Op::Alloc(Ty::U8, 160), // different element size
             Op::AddFresh(Ty::F32, 8), // below threshold: dropped, not pooled
